@@ -46,6 +46,18 @@ def _datas(tier, seed):
     for shp in [(4, 4), (5, 3), (3, 5), (6, 4), (4, 6), (8, 6)]:
         for X in fam.generic_list(shp[0], shp[1], seed, 4 if tier == "quick" else 40):
             out.append(("G%dx%d" % shp, X))
+    # exact copies: a dominant column copied (stale scores of a refresh interval > 1 pick the copy), and
+    # repeated rows (the same x measured again; with conflicting targets PCov-CUR picks the copy)
+    for j, shp in enumerate([(8, 6), (7, 5)] if tier == "quick" else [(8, 6), (7, 5), (9, 6), (8, 7)]):
+        X = np.array(fam.generic_list(shp[0], shp[1], seed + 11, 1)[0], float)
+        Xc = X.copy()
+        Xc[:, 2] *= 4.0
+        Xc[:, shp[1] - 1] = Xc[:, 2]
+        out.append(("Gcopycol%dx%d" % shp, Xc.tolist()))
+        Xr = X.copy()
+        Xr[0:2] *= 3.0
+        Xr[shp[0] - 2:] = Xr[0:2]
+        out.append(("Gcopyrow%dx%d" % shp, Xr.tolist()))
     return out
 
 
@@ -88,6 +100,11 @@ def cases(group):
     N = sel.n_items(X, d)
     ns = sorted({max(1, rank - 1), min(rank, N)})
     ys = _ys(len(X), tier) if kind == "PCovCUR" else [None]
+    if kind == "PCovCUR" and "copyrow" in group["label"]:
+        # the repeated rows carry conflicting targets
+        y0 = np.array(_ys(len(X), tier)[0], float)
+        y0[-2:] = y0[:2] + np.array([9.0, -8.0])
+        ys = [y0.tolist()]
     mixes = MIXINGS if kind == "PCovCUR" else [None]
     lite = tier == "quick" and not group["label"].startswith("G")
     if lite and kind == "PCovCUR":
@@ -205,11 +222,15 @@ def check(case):
     if re != 0 and not r.violations:
         B = X[:, idx] if d == "feature" else X[idx].T
         sv = np.linalg.svd(B, compute_uv=False)
-        cond = sv[0] / sv[-1] if sv[-1] > 0 else np.inf
+        # conditioning on the NON-ZERO spectrum: dependent / duplicated selected items are legal
+        rel = sv / sv[0] if sv[0] > 0 else sv
+        nz = sv[rel > 1e-12]
+        ambiguous = bool(((rel > 1e-12) & (rel < 1e-6)).any())
+        cond = (nz[0] / nz[-1]) if nz.size else np.inf
         Xc = getattr(s, "X_current_", None)
         if Xc is None:
             r.fail("no-exposed-residual", "X_current_ missing")
-        elif cond < 1e4 and not _grey(X, idx, d, tolerance):
+        elif cond < 1e4 and not ambiguous and not _grey(X, idx, d, tolerance):
             Xc = np.asarray(Xc, float)
             want = sel.residual_after(X, idx, d)
             scale = float(np.abs(X).max()) or 1.0
